@@ -46,6 +46,37 @@ def build(repo, verif, outdir, variant="stub"):
         _write_if_changed(dpath, derived)
         rep[os.path.join(cdir, "contract.go")] = dpath
         rep[os.path.join(cdir, "zz_verif_stub.go")] = os.path.join(verif, "stub", "contract_stub.go")
+    if variant == "c20":
+        # C20: the Go half of the VM (host callbacks, context handling) is transliterated from the CURRENT working
+        # tree: cgo references C.x become identifiers c_x supplied by /verif/c20/cshim.go; the functions that
+        # dereference C structs are dropped. Everything else that needs cgo is removed.
+        import subprocess
+        translit = ["vm_callback.go", "vm.go", "vm_state.go", "internal_operations.go", "lstate_factory.go", "hook.go"]
+        drop = "luaCryptoVerifyProof,luaCryptoRlpToBytes,luaGetDbHandle,LuaGetDbHandleSnap,LuaGetDbSnapshot,Compile"
+        gdir = os.path.join(outdir, "c20gen")
+        os.makedirs(gdir, exist_ok=True)
+        tool = os.path.join(outdir, "c20gen.bin")
+        env = dict(os.environ, GOFLAGS="-mod=mod", GOPROXY="off", GOSUMDB="off", GOTOOLCHAIN="local")
+        subprocess.check_call(["go", "build", "-o", tool, "."], cwd=os.path.join(verif, "tools", "c20gen"), env=env)
+        subprocess.check_call([tool, cdir, gdir, drop] + translit, stdout=subprocess.DEVNULL)
+        for name in sorted(os.listdir(cdir)):
+            p = os.path.join(cdir, name)
+            if not os.path.isfile(p):
+                continue
+            if name.endswith(".c") or name.endswith("_test.go"):
+                rep[p] = ""
+            elif name in translit:
+                rep[p] = os.path.join(gdir, "t_" + name)
+            elif name.endswith(".go") and name != "contract.go" and 'import "C"' in open(p).read():
+                rep[p] = ""
+        src = open(os.path.join(cdir, "contract.go")).read()
+        derived = re.sub(r'(?m)^import "C"[ \t]*\n', "", src, count=1)
+        dpath = os.path.join(outdir, "contract_derived.go")
+        _write_if_changed(dpath, derived)
+        rep[os.path.join(cdir, "contract.go")] = dpath
+        for f in sorted(os.listdir(os.path.join(verif, "c20"))):
+            if f.endswith(".go"):
+                rep[os.path.join(cdir, "zz_verif_" + f)] = os.path.join(verif, "c20", f)
     # in-package tests and shims
     troot = os.path.join(verif, "tests")
     for d, _, files in os.walk(troot):
